@@ -461,6 +461,28 @@ func main() {
 			}
 			layer := &mvt.Layer{Features: []*geojson.Feature{geojson.NewFeature(poly.Clone()), geojson.NewFeature(orb.LineString{}), geojson.NewFeature(ls.Clone())}}
 			mvt.Layers{layer}.Simplify(sp.s)
+			// singular and plural forms agree, layer by layer
+			mkL := func() *mvt.Layer {
+				return &mvt.Layer{Features: []*geojson.Feature{geojson.NewFeature(poly.Clone()), geojson.NewFeature(orb.LineString{}), geojson.NewFeature(ls.Clone())}}
+			}
+			single := mkL()
+			single.Simplify(sp.s)
+			many := mvt.Layers{mkL(), {Name: "empty"}, mkL()}
+			many.Simplify(sp.s)
+			for li, l := range many {
+				wl := single.Features
+				if li == 1 {
+					wl = nil
+				}
+				same := len(l.Features) == len(wl)
+				for fi := 0; same && fi < len(wl); fi++ {
+					same = orb.Equal(l.Features[fi].Geometry, wl[fi].Geometry)
+				}
+				if !same || len(single.Features) != len(layer.Features) {
+					c.Failf("mvt-layers-simplify", "%s: Layers.Simplify and Layer.Simplify disagree on layer %d (%d vs %d features)", sp.name, li, len(l.Features), len(wl))
+					break
+				}
+			}
 			if len(layer.Features) != 2 || !orb.Equal(layer.Features[0].Geometry, want) {
 				c.Failf("mvt-layers-simplify", "%s: Layers.Simplify kept %d features, first = %v, want 2 and %v", sp.name, len(layer.Features), layer.Features[0].Geometry, want)
 			}
